@@ -2,6 +2,8 @@ package verifrt
 
 import (
 	"os"
+	"path/filepath"
+	"time"
 	"strings"
 
 	"github.com/syndtr/goleveldb/leveldb"
@@ -302,4 +304,78 @@ func InstallTempFiles() {
 	Override("os.CreateTemp", dmCreateTemp)
 	Override("(*os.File).Name", dmFileName)
 	Override("(*os.File).Close", dmFileClose)
+}
+
+// ---- directory listing (os.Stat, filepath.Walk, os.SameFile) ----
+
+type finfo struct {
+	name string
+	path string
+	dir  bool
+}
+
+func (f finfo) Name() string       { return f.name }
+func (f finfo) Size() int64        { return 0 }
+func (f finfo) Mode() os.FileMode  { return 0 }
+func (f finfo) ModTime() time.Time { return time.Time{} }
+func (f finfo) IsDir() bool        { return f.dir }
+func (f finfo) Sys() interface{}   { return nil }
+
+func baseName(p string) string {
+	i := strings.LastIndex(p, "/")
+	return p[i+1:]
+}
+
+func dmStat(path string) (os.FileInfo, error) {
+	if path == WorkDir {
+		return finfo{baseName(path), path, true}, nil
+	}
+	d := Disk[path]
+	if d == nil || !d.Exists {
+		return nil, NewError("stat: no such file or directory")
+	}
+	return finfo{baseName(path), path, !d.IsFile}, nil
+}
+
+func dmSameFile(a, b os.FileInfo) bool {
+	x, ok1 := a.(finfo)
+	y, ok2 := b.(finfo)
+	return ok1 && ok2 && x.path == y.path
+}
+
+// WorkDir is the one directory whose children can be listed.
+var WorkDir = "/work"
+
+func dmWalk(root string, fn filepath.WalkFunc) error {
+	err := fn(root, finfo{baseName(root), root, true}, nil)
+	if err != nil {
+		if err == filepath.SkipDir {
+			return nil
+		}
+		return err
+	}
+	// snapshot of the children (the callback may delete entries)
+	var kids []string
+	for p, d := range Disk {
+		if d.Exists && strings.HasPrefix(p, root+"/") && !strings.Contains(p[len(root)+1:], "/") {
+			kids = append(kids, p)
+		}
+	}
+	for _, p := range kids {
+		d := Disk[p]
+		if d == nil || !d.Exists {
+			continue
+		}
+		err := fn(p, finfo{baseName(p), p, !d.IsFile}, nil)
+		if err != nil && err != filepath.SkipDir {
+			return err
+		}
+	}
+	return nil
+}
+
+func InstallDirListing() {
+	Override("os.Stat", dmStat)
+	Override("os.SameFile", dmSameFile)
+	Override("path/filepath.Walk", dmWalk)
 }
